@@ -192,6 +192,12 @@ var templates = []func(u string) string{
 		return "rec(make([]float32, 1))\nrec(make(float32))\nmake(type uint32, w0)\nrec(make([]uint32, 1))\nfunc() { make(type uint, w0); rec(make([]uint, 1)) }()\nrec(make([]uint, 1))\nrec(make(map[string]float32))"
 	},
 	func(u string) string {
+		// how often the body of a for-in over a map runs does not depend on what the body adds to or removes from
+		// the map (order aside): once per entry present when the loop started
+		return "m" + u + " = {\"a\": 1, \"b\": 2, \"c\": 3}\nn" + u + " = 0\nfor k" + u + ", v" + u + " in m" + u + " {\nn" + u + "++\nm" + u + "[k" + u + " + \"x\"] = base\nm" + u + "[k" + u + " + \"y\"] = base\n}\nrec(n" + u + ")\nrec(len(m" + u + "))\n" +
+			"o" + u + " = {\"p\": 1}\nc" + u + " = 0\nfor k" + u + " in o" + u + " {\nc" + u + "++\nfor j" + u + " = 0; j" + u + " < 40; j" + u + "++ { o" + u + "[\"q\" + j" + u + "] = j" + u + " }\n}\nrec(c" + u + ")"
+	},
+	func(u string) string {
 		// an error value belongs to the run that raised it: what a catch block (or the host) writes into it stays there
 		return "try { [1][base] } catch e" + u + " { e" + u + ".Message = hostUp(e" + u + ".Message); rec(e" + u + ".Message) }\n" +
 			"func w" + u + "() { try { 7 % (base - base) } catch g" + u + " { g" + u + ".Message = \"w:\" + g" + u + ".Message; throw g" + u + " } }\ntry { w" + u + "() } catch f" + u + " { rec(f" + u + ".Message) }\n" +
@@ -962,4 +968,45 @@ func (Prop) Shrink(c *harness.Case) []*harness.Case {
 		emit(nw)
 	}
 	return out
+}
+
+// SharedLibraryReal: a library defined by an earlier run in a base environment, used at the same time by runs on
+// child environments of that base (a common way to embed: one prelude, many requests). Each run must yield what
+// it yields alone, however deep the others are inside the library at that moment. Real goroutines only: the
+// depth makes it far too long for the step-bounded simulation.
+func SharedLibraryReal(round int) string {
+	base := core.Import(env.NewEnv())
+	if _, err := vm.Execute(base, nil, "func libdepth(n) { if n > 0 { return libdepth(n - 1) + 1 }; return 0 }\nfunc libsum(l) { t = 0; for x in l { t += x }; return t }"); err != nil {
+		return ""
+	}
+	depth := 1200 + 100*(round%8)
+	src := fmt.Sprintf("[libdepth(%d), libsum([1, 2, 3])]", depth)
+	alone, aerr := vm.Execute(base.NewEnv(), nil, src)
+	want := fmt.Sprintf("%v|%v", alone, aerr)
+	const runs = 12
+	var wg sync.WaitGroup
+	got := make([]string, runs)
+	start := make(chan struct{})
+	for i := 0; i < runs; i++ {
+		wg.Add(1)
+		go func(i int) {
+			defer wg.Done()
+			defer func() {
+				if x := recover(); x != nil {
+					got[i] = fmt.Sprintf("panic: %v", x)
+				}
+			}()
+			<-start
+			v, err := vm.Execute(base.NewEnv(), nil, src)
+			got[i] = fmt.Sprintf("%v|%v", v, err)
+		}(i)
+	}
+	close(start)
+	wg.Wait()
+	for i, g := range got {
+		if g != want {
+			return fmt.Sprintf("run %d of %d concurrent runs on child environments of one base (library defined by an earlier run) returned %s; alone it returns %s\n%s", i, runs, g, want, src)
+		}
+	}
+	return ""
 }
